@@ -15,6 +15,7 @@ from __future__ import annotations
 import ast
 
 from .. import effects as E
+from .. import defuse as D
 from ..index import AnalysisError, call_name, norm, param_defaults, params_of, walk_no_nested
 from ..report import key
 
@@ -441,8 +442,70 @@ def r03_7(chk):
     chk.floor("R03.7", 1, "at least take_positions' two make_seq calls")
 
 
+def _slice_bound_uses(fn):
+    """for a function with a slice parameter: (names bound from <param>.stop, CFG, clamp nodes, use nodes).
+    A *clamp* bounds the name by the length of the receiver: `n = min(n, len(self))`, `n = min(len(self), n)`,
+    or the triple from `<param>.indices(len(self))`.  A *use* is arithmetic on the name (a subtraction /
+    addition operand) or passing it on as a keyword argument or to a self-method other than len/min."""
+    from .. import cfg as C
+
+    ps = [p for p in params_of(fn) if p != "self"]
+    stops = set()
+    for tg, v, _ in D.assignments(fn):
+        if any(isinstance(n, ast.Attribute) and n.attr == "stop" and isinstance(n.value, ast.Name) and n.value.id in ps for n in ast.walk(v)):
+            stops |= {t.id for t in tg if isinstance(t, ast.Name)}
+    if not stops:
+        return None
+    g = C.build(fn)
+
+    def is_clamp(a):
+        if isinstance(a, ast.Assign) and len(a.targets) == 1 and isinstance(a.targets[0], ast.Name) and a.targets[0].id in stops and isinstance(a.value, ast.Call) and call_name(a.value) == "min":
+            args = [norm(x) for x in (a.value.args[0].elts if len(a.value.args) == 1 and isinstance(a.value.args[0], (ast.Tuple, ast.List)) else a.value.args)]
+            return a.targets[0].id in args and any(x in ("len(self)", "self.__len__()") for x in args)
+        if isinstance(a, ast.Assign) and isinstance(a.value, ast.Call) and isinstance(a.value.func, ast.Attribute) and a.value.func.attr == "indices" and [norm(x) for x in a.value.args] == ["len(self)"]:
+            return True
+        return False
+
+    clamps = [n for n in g.nodes if n.ast is not None and n.kind not in ("def",) and is_clamp(n.ast)]
+
+    def uses_name(x):
+        if isinstance(x, ast.BinOp) and isinstance(x.op, (ast.Sub, ast.Add)) and any(isinstance(o, ast.Name) and o.id in stops for o in (x.left, x.right)):
+            return True
+        if isinstance(x, ast.Call) and call_name(x) not in ("min", "max", "len"):
+            if any(isinstance(k.value, ast.Name) and k.value.id in stops for k in x.keywords):
+                return True
+            if isinstance(x.func, ast.Attribute) and norm(x.func.value) == "self" and any(isinstance(a, ast.Name) and a.id in stops for a in x.args):
+                return True
+        return False
+
+    # statements that rebind the stop itself (negative-index conversion, defaults) are normalisation, not uses
+    uses = [u for u in g.nodes_containing(uses_name) if not (isinstance(u.ast, ast.Assign) and all(isinstance(t, ast.Name) and t.id in stops for t in u.ast.targets))]
+    return stops, g, clamps, uses
+
+
+def r03_8(chk):
+    chk.rule("R03.8", "slicing a gap map clamps like slicing a string: in IndelMap.__getitem__[slice] every arithmetic use of the slice's stop (a length `stop - start`, an index handed to another method) is dominated by a clamp of that stop to len(self) -- an unclamped stop beyond the end becomes part of the result's length, and every later coordinate computed from that length (len(), reverse complement) is wrong")
+    m = chk.repo.module("core/location.py")
+    ci = m.cls("IndelMap")
+    fns = [st for st in ci.node.body if isinstance(st, ast.FunctionDef) and st.name == "_" and any("__getitem__.register" in norm(d) for d in st.decorator_list) and len(st.args.args) > 1 and st.args.args[1].annotation is not None and norm(st.args.args[1].annotation) == "slice"]
+    if not fns:
+        raise AnalysisError("IndelMap.__getitem__ slice overload not found")
+    for fn in fns:
+        r = _slice_bound_uses(fn)
+        if r is None:
+            raise AnalysisError("IndelMap.__getitem__[slice]: no name bound from <slice>.stop")
+        stops, g, clamps, uses = r
+        if not uses:
+            raise AnalysisError("IndelMap.__getitem__[slice]: no arithmetic use of the stop found")
+        for u in uses:
+            okd, path = g.dominated_by(u, clamps) if clamps else (False, None)
+            chk.decide(okd, "R03.8", key(m, "IndelMap.__getitem__[slice]", f"stop clamped before {norm(u.ast)[:60] if not isinstance(u.ast, (ast.If, ast.For, ast.While)) else norm(u.ast.test if hasattr(u.ast, 'test') else u.ast.iter)[:60]}"), m.loc(u.ast), "dominated by a clamp to len(self)", "a stop taken from the slice reaches this arithmetic without having been bounded by len(self): imap[2:100] on a map of length 10 yields a map of length 98" + (f" (path: {g.show_path(path)})" if path else ""))
+    chk.floor("R03.8", 3, "arithmetic uses of the slice stop in IndelMap.__getitem__[slice]")
+
+
 def run(chk):
     r03_7(chk)
+    r03_8(chk)
     r03_1(chk)
     r03_2(chk)
     r03_3(chk)
